@@ -120,3 +120,28 @@ def run(ctx, args):
         assumptions=["digest = sha256 of the InstructionPrinter listing of all functions, the sorted import names and (with the wasm option) of the bytes written by WriteTo",
                      "every request uses a fresh Compiler() (the statement speaks of fresh compiler objects)"],
         extra={"requests_not_compiling": sorted(REQUESTS[r - 1][0] for r in rejected), "processes": len(outs)})
+
+
+def selftest(ctx, args):
+    """Negative control for the CompileHistory trace binding: a real trace (one request compiled in two fresh processes under
+    two hash seeds) is accepted; the same trace with one digest altered is rejected at that event."""
+    cwd = str(ctx.scratch / "c18self")
+    os.makedirs(cwd, exist_ok=True)
+    worker = str(common.VERIF / "harness" / "c18_worker.py")
+    outs = [replay(([1, 2], s, str(ctx.repo), cwd, worker)) for s in (0, 7)]
+    events = []
+    for pid, (h, s, out, err) in enumerate(outs):
+        if out is None:
+            raise common.Machinery(f"worker failed: {err}")
+        for pos, (r, d) in enumerate(zip(h, out)):
+            events.append({"proc": pid, "pos": pos + 1, "req": r, "digest": d, "seed": s, "earlier": h[:pos]})
+    results = {}
+    for name, evs in (("original", events), ("digest-altered", events[:-1] + [dict(events[-1], digest="0" * 16)])):
+        path = ctx.tmp(f"c18-self-{name}.json")
+        path.write_text(json.dumps(evs))
+        cfg2 = f'CONSTANTS Mode = "trace" NReq = {len(REQUESTS)} MaxLen = 2\nINIT Init\nNEXT Next\nINVARIANT FunctionOfInput\nINVARIANT ReportTrace\nPROPERTY Stable\nCHECK_DEADLOCK FALSE\n'
+        res2 = ctx.tlc("CompileHistory", cfg2, env={"BATCH": str(path)}, timeout=600, workers=1)
+        final = [r for r in res2.records if r["bad"] or r["consumed"] == len(evs)]
+        results[name] = bool(final and final[-1]["bad"])
+    print("selftest C18 (CompileHistory trace binding):", json.dumps({k: ("rejected" if v else "accepted") for k, v in results.items()}))
+    return 0 if results == {"original": False, "digest-altered": True} else 2
